@@ -6,7 +6,7 @@ HARNESS_TIMEOUT = {'quick': 900, 'thorough': 7200}
 
 # files whose failure means the executable model itself does not build
 MODEL_FILES = ['theories/Base.v', 'theories/Lines.v', 'theories/Lifecycle.v', 'theories/Regex.v', 'theories/Claims.v',
-               'theories/Obs.v', 'theories/Run.v', 'spec/SpecTables.v', 'gen/GenConsts.v']
+               'theories/Obs.v', 'theories/CaseClaims.v', 'theories/RunC14.v', 'theories/Run.v', 'spec/SpecTables.v', 'gen/GenConsts.v']
 
 TRUSTED_BASE = [
     'Coq 8.16.1 kernel (coqc; vm_compute used in tie obligations; no native_compute)',
@@ -31,7 +31,25 @@ def _c14_class(inp, obs):
     return 'state=%s pre=%s' % (o[0], 'none' if f[2] == '_' else ('same' if f[2] == f[1] else 'other'))
 
 
+def _c01_nontrivial(inp, obs):
+    # non-trivial: the claims-set is NOT accepted, or some getter fails
+    return not all(t.startswith('ok') for t in obs.split(' '))
+
+
+def _c01_class(inp, obs):
+    f = inp.split(' ')
+    o = obs.split(' ')
+    return 'P%s validate=%s' % (f[1], 'ok' if o[0] == 'ok' else ('panic' if o[0] == 'panic' else 'err'))
+
+
+CLAIMS_CONE = ['theories/LifecycleProofs.v', 'theories/RegexProofs.v', 'theories/ClaimsProofs.v', 'ties/TieConsts.v']
+
 PROPS = {
+    'C01': dict(
+        cone=CLAIMS_CONE, level='proof',
+        nontrivial=_c01_nontrivial, classify=_c01_class,
+        rule='per profile: every alternative (absent / boundary / just-outside / wrong shape; byte lengths 0..80 exhaustively; single-edit neighbourhood of both certification-reference formats; component lists of 1..4 with one malformed entry at every position; nil container / nil element / flag values) of every claim alone on valid bases, then random combinations of 1..3 deviations, then random valid sets; claims-sets are built directly as Go structs; observed: Validate() and all ten getters (value or errors.Is bits); non-trivial = not everything succeeds; distinct = distinct input line',
+    ),
     'C14': dict(
         cone=['theories/LifecycleProofs.v', 'ties/TieConsts.v'],
         level='proof', exhaustive=True,
